@@ -539,8 +539,15 @@ func genWeight(g *core.Gen, r *core.Rand) {
 				SignatureScript: sizedBytes(r, lens[r.Intn(len(lens))])}
 			if r.Chance(1, 2) {
 				k := r.Intn(4)
+				if r.Chance(1, 12) {
+					k = int(r.Pick(252, 253, 254, 300)) // witness item count at the varint boundary
+				}
 				for j := 0; j < k; j++ {
-					in.Witness = append(in.Witness, sizedBytes(r, lens[r.Intn(len(lens))]))
+					if k > 100 {
+						in.Witness = append(in.Witness, sizedBytes(r, r.Intn(3)))
+					} else {
+						in.Witness = append(in.Witness, sizedBytes(r, lens[r.Intn(len(lens))]))
+					}
 				}
 			}
 			t.TxIn = append(t.TxIn, in)
